@@ -47,6 +47,14 @@ Definition bot_possible (v : pview) (m : move) : bool :=
     | None => false
     end) (match pv_allowed v with [] => [AFold] | l => l end).
 
+Definition c19_required (v : pview) : option move :=
+  if acts_eqb (pv_allowed v) [APass] then Some MvPass
+  else if has_act AReady (pv_allowed v) then Some MvReady
+  else if has_act ACheck (pv_allowed v) then Some MvCheck
+  else if has_act AFold (pv_allowed v) then Some MvFold
+  else if has_act APay (pv_allowed v) then mandatory_pay v
+  else None.
+
 Definition game_filtered (g : ogame) : ogame := as_observer g.
 Definition oplayer_eqb (a b : oplayer) : bool :=
   Nat.eqb (length (op_hole a)) (length (op_hole b)) && Bool.eqb (op_combo a) (op_combo b) && Bool.eqb (op_fold a) (op_fold b).
@@ -75,6 +83,13 @@ Definition obs_diag (o : obs) : list (nat * nat) :=
           end
       end
   | OPlayer st at_ v calls =>
+      (* the most conservative action, as the property words it: pass when that is the only option, otherwise ready or check
+         if allowed, otherwise fold, otherwise the mandatory payment - and exactly that is submitted *)
+      (match c19_required v, calls with
+       | Some m, [(m', _, _)] => if move_eqb m m' then [] else [(4%nat, 5%nat)]
+       | Some _, [] => [(4%nat, 5%nat)]
+       | _, _ => []
+       end) ++
       match player_move st at_ v, calls with
       | None, [] => []
       | Some (m, d), [(m', ms, accepted)] =>
